@@ -999,6 +999,10 @@ package connect
 //@   ensures res != nil && Is(res, io.EOF) && termerr(u.envelopeReader.reader) == io.EOF && !called("json.Unmarshal", 1) ==> |old(rest(u.envelopeReader.reader))| == 0   // label: otherwise-eof-only-at-a-clean-end
 //@   ensures res != nil ==> asErr(res) == res                                                           // label: errors-are-coded
 //@   ensures res != errSpecialEnvelope ==> u.endStreamErr == old(u.endStreamErr)                        // label: end-stream-error-set-only-with-the-sentinel
+//@   ensures res == errSpecialEnvelope && u.endStreamErr != nil ==> u.endStreamErr.code != 0           // label: end-stream-error-has-a-non-zero-code   // tags: C06
+//@   ensures res == errSpecialEnvelope ==> u.trailer != nil && (forall k seq :: {mapdom(u.trailer, k)} mapdom(u.trailer, k) ==> canon(k) == k)   // label: end-stream-metadata-keys-are-canonical   // tags: C06, C11
+//@   loop 1:
+//@     invariant u.trailer != nil && (forall k seq :: {mapdom(u.trailer, k)} mapdom(u.trailer, k) ==> canon(k) == k)
 
 //@ constfield connectStreamingClientConn.duplexCall, connectStreamingClientConn.responseTrailer, connectStreamingClientConn.responseHeader, connectStreamingClientConn.compressionPools, connectStreamingClientConn.bufferPool
 //@ constfield duplexHTTPCall.requestBodyReader, duplexHTTPCall.requestBodyWriter, duplexHTTPCall.ctx, duplexHTTPCall.request, duplexHTTPCall.httpClient
@@ -1011,3 +1015,52 @@ package connect
 //@   ensures callres("(*connectStreamingUnmarshaler).Unmarshal", 1) == nil ==> err == nil                // label: a-decoded-message-is-delivered
 //@   ensures err != nil && Is(err, io.EOF) ==> Is(callres("(*connectStreamingUnmarshaler).Unmarshal", 1), errSpecialEnvelope) || (err == cc.unmarshaler.endStreamErr && (callres("(*connectStreamingUnmarshaler).Unmarshal", 1) == errSpecialEnvelope || old(cc.unmarshaler.endStreamErr) != nil))   // label: clean-end-only-after-the-end-of-stream-envelope
 //@   ensures err != nil ==> coded(err)                                                                  // label: errors-are-coded
+
+// ---------------------------------------------------------------------------
+// C06: every *Error built while decoding a response has a non-zero code
+// ---------------------------------------------------------------------------
+
+//@ func connectHTTPToCode(httpCode) res
+//@   tags C06, C05
+//@   ensures res != 0 && 1 <= res && res <= 16                                                          // label: never-the-zero-code
+//@ func grpcHTTPToCode(httpCode) res
+//@   tags C06, C05
+//@   ensures res != 0 && 1 <= res && res <= 16                                                          // label: never-the-zero-code
+
+// Connect end-of-stream messages: a peer-supplied error object never yields
+// code 0, and the metadata keys are canonical (lookups are case-insensitive).
+
+//@ func grpcErrorFromTrailer(bufferPool, protobuf, trailer) res
+//@   tags C06, C02
+//@   requires bufferPool != nil && protobuf != nil
+//@   nosafety truncation
+//@   assigns everything
+//@   ensures res != nil ==> asErr(res) == res && res.code != 0                                          // label: never-the-zero-code
+//@   ensures old(hget(trailer, "Grpc-Status")) == "" ==> res != nil && res.code == 13 && Is(res, errTrailersWithoutGRPCStatus)   // label: missing-status-is-internal
+//@   ensures isNum10(old(hget(trailer, "Grpc-Status"))) && val10(old(hget(trailer, "Grpc-Status"))) == 0 ==> res == nil   // label: every-numeric-zero-is-ok
+//@   loop rangeindex:
+//@     invariant 0 - 1 <= rangeindex && rangeindex < |status.Details|
+
+
+//@ func (*connectUnaryClientConn).validateResponse(cc, response) res
+//@   tags C06, C09
+//@   requires cc != nil && response != nil && cc.responseHeader != nil && cc.responseTrailer != nil && cc.compressionPools != nil
+//@   assigns everything
+//@   ensures res != nil ==> asErr(res) == res && res.code != 0                                          // label: never-the-zero-code
+//@   ensures old(response.StatusCode) != 200 ==> res != nil                                             // label: non-200-is-an-error
+//@   ensures old(response.StatusCode) != 200 && called("NewError", 1) ==> res.code == callres("connectHTTPToCode", 2)   // label: without-a-valid-wire-error-the-code-comes-from-the-http-status
+
+//@ func grpcValidateResponse(response, header, trailer, availableCompressors, bufferPool, protobuf) res
+//@   tags C06
+//@   requires response != nil && header != nil && trailer != nil && availableCompressors != nil && bufferPool != nil && protobuf != nil
+//@   assigns everything
+//@   ensures res != nil ==> asErr(res) == res && res.code != 0                                          // label: never-the-zero-code
+//@   ensures old(response.StatusCode) != 200 ==> res != nil && res.code == callres("grpcHTTPToCode", 1)   // label: non-200-takes-the-code-from-the-http-status
+
+//@ func (*connectStreamingClientConn).validateResponse(cc, response) res
+//@   tags C06, C09
+//@   requires cc != nil && response != nil && cc.responseHeader != nil && cc.compressionPools != nil
+//@   assigns everything
+//@   ensures res != nil ==> asErr(res) == res && res.code != 0                                          // label: never-the-zero-code
+//@   ensures old(response.StatusCode) != 200 ==> res != nil && res.code == callres("connectHTTPToCode", 1)   // label: non-200-takes-the-code-from-the-http-status
+//@   ensures res == nil ==> cc.unmarshaler.envelopeReader.readMaxBytes == old(cc.unmarshaler.envelopeReader.readMaxBytes)   // label: keeps-the-read-limit   // tags: C09
